@@ -61,26 +61,34 @@ Definition cons_dict (c : constraints) : list constr :=
 Definition ocons (f : constraints -> list constr) (o : option constraints) : list constr :=
   match o with Some c => f c | None => [] end.
 
-(* Python equality of JSON data after to_hashable (used by UniqueItemsConstraint) *)
-Fixpoint data_pyeq (a b : pyval) {struct a} : bool :=
+(* equality of JSON data after to_hashable (used by UniqueItemsConstraint): JSON equality - numbers are compared
+   mathematically, booleans are not numbers, arrays and objects are never equal *)
+Fixpoint json_eq (a b : pyval) {struct a} : bool :=
   match a, b with
+  | PNone, PNone => true
+  | PBool x, PBool y => Bool.eqb x y
+  | PInt x, PInt y => Z.eqb x y
+  | PInt x, PFloat (FQ q) | PFloat (FQ q), PInt x => Z.eqb (4 * x) q
+  | PFloat x, PFloat y => fl_eqb x y
+  | PStr x, PStr y => String.eqb x y
   | PList l1, PList l2 => (fix go (l1 l2 : list pyval) : bool :=
                              match l1, l2 with
                              | [], [] => true
-                             | x :: r1, y :: r2 => data_pyeq x y && go r1 r2
+                             | x :: r1, y :: r2 => json_eq x y && go r1 r2
                              | _, _ => false end) l1 l2
   | PDict l1, PDict l2 =>
       Nat.eqb (List.length l1) (List.length l2) &&
       (fix all (l1 : list (string * pyval)) : bool :=
          match l1 with
          | [] => true
-         | (k, x) :: r1 => match dict_get k l2 with Some y => data_pyeq x y | None => false end && all r1
+         | (k, x) :: r1 => match dict_get k l2 with Some y => json_eq x y | None => false end && all r1
          end) l1
-  | _, _ => py_eq (embed a) (embed b)
+  | POther x, POther y => String.eqb x y
+  | _, _ => false
   end.
 
 Fixpoint all_distinct (l : list pyval) : bool :=
-  match l with [] => true | x :: r => negb (existsb (data_pyeq x) r) && all_distinct r end.
+  match l with [] => true | x :: r => negb (existsb (json_eq x) r) && all_distinct r end.
 
 (* numeric value of the datum in quarters; None for nan / inf (every comparison with nan is False) *)
 Definition data_q (d : pyval) : option (option Z) :=
